@@ -167,7 +167,17 @@ impl Stream for RtrListener {
                     this.server_metrics,
                 ) {
                     Ok(stream) => Poll::Ready(Some(Ok(stream))),
-                    Err(_) => Poll::Pending,
+                    Err(err) => {
+                        // We drop this connection but need to be polled
+                        // again for the next one: the listener has not
+                        // registered our waker since it was ready.
+                        warn!(
+                            "Failed to set up RTR connection from {}: {}",
+                            addr, err
+                        );
+                        ctx.waker().wake_by_ref();
+                        Poll::Pending
+                    }
                 }
             }
             Poll::Ready(Err(err)) => {
